@@ -49,32 +49,92 @@ func runC17(c *Ctx) {
 		return
 	}
 	region := caseRegion(*arm)
+	// the writes as events: emit(S) = the string S goes to the evaluator's writer, unchanged — written as
+	// Fprint(stdout, S), Fprintf(stdout, "%s", S) or Evaluator.print(S); emitln(S) = Fprintln(stdout, S). A
+	// string chosen by a branch (`text := "null"; if cell != nil { text = … }`) is one event per way.
 	type w struct {
 		text   string
 		guards map[string]bool
 		call   ssa.CallInstruction
 	}
 	var writes []w
-	for _, rc := range p.renderedCalls(es) {
-		if !region[rc.Call.Block()] {
-			continue
-		}
-		f := rc.Call.Common().StaticCallee()
-		if f == nil || !strings.HasPrefix(f.String(), "fmt.Fp") {
-			continue
-		}
+	F := FactsOf(es)
+	rr := &renderer{p: p, depth: 2} // helpers such as PrettyString by name, not inlined
+	relText := func(fs factSet) map[string]bool {
 		g := map[string]bool{}
-		for _, x := range rc.Guards {
-			g[abbrevPrint(x)] = true
+		for _, rl := range fs.Rels() {
+			g[abbrevPrint(rr.val(rl.x, 0)+" "+rl.op.String()+" "+rr.val(rl.y, 0))] = true
 		}
-		writes = append(writes, w{abbrevPrint(rc.Text), g, rc.Call})
+		return g
+	}
+	strOperand := func(v ssa.Value) ssa.Value {
+		for {
+			switch x := v.(type) {
+			case *ssa.MakeInterface:
+				v = x.X
+				continue
+			}
+			return v
+		}
+	}
+	for _, call := range callsIn(es) {
+		if !region[call.Block()] {
+			continue
+		}
+		f := call.Common().StaticCallee()
+		if f == nil {
+			continue
+		}
+		args := call.Common().Args
+		kind := ""
+		var operand ssa.Value
+		switch f.String() {
+		case "fmt.Fprint", "fmt.Fprintln", "fmt.Fprintf":
+			if sf, ok := loadedField(args[0]); !ok || !sf.Is("Evaluator", "stdout") {
+				c.violated("R1", "print-write "+abbrevPrint(rr.call(call.Common(), 0)), p.InstrPos(call), "the print statement writes to something other than the evaluator's output")
+				continue
+			}
+			va := args[len(args)-1]
+			elems := variadicElems(va)
+			okForm := len(elems) == 1
+			if f.String() == "fmt.Fprintf" {
+				if fs, isC := constString(args[1]); !isC || fs != "%s" {
+					okForm = false
+				}
+			}
+			if !okForm {
+				c.violated("R1", "print-write "+abbrevPrint(rr.call(call.Common(), 0)), p.InstrPos(call), "the print statement performs a write that is not part of the documented format: "+abbrevPrint(rr.call(call.Common(), 0)))
+				continue
+			}
+			operand = strOperand(elems[0])
+			kind = "emit"
+			if f.String() == "fmt.Fprintln" {
+				kind = "emitln"
+			}
+		case "(*" + langPath + ".Evaluator).print":
+			operand = args[1]
+			kind = "emit"
+		default:
+			continue
+		}
+		if phi, ok := operand.(*ssa.Phi); ok && !loopCarried(phi) {
+			for i, e := range phi.Edges {
+				g := relText(F.OnEdge(phi.Block().Preds[i], phi.Block()))
+				for k := range relText(F.At(call.Block())) {
+					g[k] = true
+				}
+				writes = append(writes, w{kind + " " + abbrevPrint(rr.val(e, 0)), g, call})
+			}
+			continue
+		}
+		writes = append(writes, w{kind + " " + abbrevPrint(rr.val(operand, 0)), relText(F.At(call.Block())), call})
 	}
 	want := map[string][]string{
-		`fmt.Fprintln(e.stdout, [PrettyString(&e.ruleRoot.Value, false)][:])`:  {"len(A) == 0", "Aerr == nil"},
-		`fmt.Fprint(e.stdout, [" "][:])`:                                       {"i@A > 0", "i@A < len(A)"},
-		`fmt.Fprint(e.stdout, ["null"][:])`:                                    {"A[i@A] == nil"},
-		`fmt.Fprintf(e.stdout, "%s", [PrettyString(&A[i@A].Value, false)][:])`: {"A[i@A] != nil", "i@A < len(A)"},
-		`fmt.Fprint(e.stdout, ["\n"][:])`:                                      {"i@A >= len(A)", "len(A) != 0"},
+		`emitln PrettyString(&e.ruleRoot.Value, false)`: {"len(A) == 0", "Aerr == nil"},
+		`emit " "`:                               {"i@A > 0", "i@A < len(A)"},
+		`emit "null"`:                            {"A[i@A] == nil"},
+		`emit PrettyString(&A[i@A].Value, false)`: {"A[i@A] != nil", "i@A < len(A)"},
+		`emit "\n"`:                             {"i@A >= len(A)", "len(A) != 0"},
 	}
 	seen := map[string]bool{}
 	for _, wr := range writes {
@@ -90,7 +150,7 @@ func runC17(c *Ctx) {
 				lacking = append(lacking, g)
 			}
 		}
-		c.check(len(lacking) == 0, "R1", "print-write "+wr.text, p.InstrPos(wr.call), "under "+strings.Join(req, " && "), "this write is not controlled by {"+strings.Join(lacking, " ; ")+"}: separators / newline would be placed by something other than the argument's position")
+		c.check(len(lacking) == 0, "R1", "print-write "+wr.text, p.InstrPos(wr.call), "under "+strings.Join(req, " && "), "this write is not controlled by {"+strings.Join(lacking, " ; ")+"}: separators / newline would be placed by something other than the argument position")
 	}
 	for t := range want {
 		if !seen[t] {
@@ -362,8 +422,8 @@ func unbufferedOutput(c *Ctx, rule string) {
 			}
 		}
 	}
-	if n < 6 {
-		c.undecided(rule, "instance-floor", "", fmt.Sprintf("%d uses of Evaluator.stdout, 7 confirmed by hand", n))
+	if n < 2 {
+		c.undecided(rule, "instance-floor", "", fmt.Sprintf("%d uses of Evaluator.stdout found (the constructor's store and at least one write are expected)", n))
 	}
 	constFormats(c, rule)
 }
@@ -397,4 +457,39 @@ func constFormats(c *Ctx, rule string) {
 	if n < 40 {
 		c.undecided(rule, "format-floor", "", fmt.Sprintf("%d printf-like calls found, 50 confirmed by hand", n))
 	}
+}
+
+// variadicElems: the values packed into a variadic argument slice (`f(a, b)` -> [a, b])
+func variadicElems(v ssa.Value) []ssa.Value {
+	sl, ok := v.(*ssa.Slice)
+	if !ok {
+		return nil
+	}
+	a, ok := sl.X.(*ssa.Alloc)
+	if !ok {
+		return nil
+	}
+	type kv struct {
+		i int64
+		v ssa.Value
+	}
+	var es []kv
+	for _, r := range referrersOf(a) {
+		ia, ok := r.(*ssa.IndexAddr)
+		if !ok {
+			continue
+		}
+		k, _ := constInt(ia.Index)
+		for _, rr := range referrersOf(ia) {
+			if st, ok := rr.(*ssa.Store); ok && st.Addr == ssa.Value(ia) {
+				es = append(es, kv{k, st.Val})
+			}
+		}
+	}
+	sort.Slice(es, func(i, j int) bool { return es[i].i < es[j].i })
+	var out []ssa.Value
+	for _, e := range es {
+		out = append(out, e.v)
+	}
+	return out
 }
